@@ -42,7 +42,7 @@ type c11Case struct {
 func TestVerifC11Viewer(t *testing.T) {
 	const check = "C11.viewer"
 	res := verifrt.NewResult(check)
-	res.Rule = "for every counter file of every case of the uploader leg the viewer's newCounterFile/summary is computed under the same configuration: 'No data from this set would be uploaded' <=> the uploader emitted no program report for that build; a counter or stack is listed as 'would be excluded' <=> the uploader omitted it; count.Active / stack.Active <=> the uploader kept that name. Only cases in which the uploader posted a report are judged. distinct = (case, file) pairs; non-trivial = file has >= 2 counters"
+	res.Rule = "for every counter file of every case of the uploader leg the viewer's newCounterFile/summary is computed under the same configuration: 'No data from this set would be uploaded' <=> the uploader emitted no program report for that build; a counter or stack is listed as 'would be excluded' <=> the uploader omitted it (for a name shared by a counter and stack counters: <=> it omitted at least one of them); count.Active / stack.Active <=> the uploader kept that name. Only cases in which the uploader posted a report are judged. distinct = (case, file) pairs; non-trivial = file has >= 2 counters"
 	share := os.Getenv("VERIF_SHARE")
 	f, err := os.Open(filepath.Join(share, "c11", "cases.jsonl"))
 	if err != nil {
@@ -90,6 +90,46 @@ func TestVerifC11Viewer(t *testing.T) {
 				continue
 			}
 			res.Hit("dataset-included")
+			// the summary names entries by their first line: a name shared by a
+			// counter and stack counters is listed exactly when the uploader omits
+			// at least one of the entries that carry it
+			groupOmit, groupKept := map[string]int{}, map[string]int{}
+			sums := []string{sum}
+			for full := range file.Counts {
+				first, _, _ := strings.Cut(full, "\n")
+				if kept.Counters[full] {
+					groupKept[first]++
+				} else {
+					groupOmit[first]++
+				}
+			}
+			for first := range groupKept {
+				if groupOmit[first] == 0 || countPrefix(file.Counts, first) < 2 {
+					continue
+				}
+				res.Hit("shared-name-mixed-verdict")
+				if len(sums) == 1 {
+					// the summary is built while ranging over a map: render it several times
+					for k := 0; k < 12; k++ {
+						sums = append(sums, string(newCounterFile("x.v1.count", &tcounter.File{Meta: file.Meta, Count: file.Counts}, cfg).Summary))
+					}
+				}
+			}
+			for _, sum := range sums {
+				for first, n := range groupOmit {
+					if countPrefix(file.Counts, first) < 2 {
+						continue
+					}
+					if listed := strings.Contains(sum, "<code>"+htmlEsc(first)+"</code>"); !listed {
+						res.Violate("viewer-shared-name-excluded-list", fmt.Sprintf("%d of the %d entries named %q are omitted by the uploader but the viewer does not list the name as excluded (summary %q)", n, countPrefix(file.Counts, first), first, sum), rp)
+					}
+				}
+				for first := range groupKept {
+					if countPrefix(file.Counts, first) >= 2 && groupOmit[first] == 0 && strings.Contains(sum, "<code>"+htmlEsc(first)+"</code>") {
+						res.Violate("viewer-shared-name-excluded-list", fmt.Sprintf("all entries named %q are uploaded but the viewer lists the name as excluded (summary %q)", first, sum), rp)
+					}
+				}
+			}
 			for _, c := range cf.Counts {
 				if c.Active != kept.Counters[c.Name] {
 					res.Violate("viewer-counter-active", fmt.Sprintf("counter %q: viewer Active=%v, uploader kept=%v", c.Name, c.Active, kept.Counters[c.Name]), rp)
@@ -129,7 +169,7 @@ func TestVerifC11Viewer(t *testing.T) {
 		}
 	}
 	res.Sample(map[string]any{"source": "cases.jsonl from the uploader leg"})
-	res.Require("dataset-excluded", "dataset-included", "counter-active", "counter-inactive", "stack-kept", "stack-omitted")
+	res.Require("shared-name-mixed-verdict", "dataset-excluded", "dataset-included", "counter-active", "counter-inactive", "stack-kept", "stack-omitted")
 	if err := res.Write(); err != nil {
 		t.Fatal(err)
 	}
